@@ -29,10 +29,11 @@ class Compiler:
             self.verif_trace = []
 
 
-    def compile_file(self, file, start, link_base):
+    def compile_file(self, file, start, link_base, include_depth=0):
         self.times_file_compiled[file.filename] += 1
         state = {
             "filename": file.filename,
+            "include_depth": include_depth,
             "context": "file",
             "internal_symbol_prefix": f".internal{self.next_internal_symbol_prefix}.",
             "compiler": self,
@@ -307,13 +308,13 @@ class Compiler:
 
 
 
-    def compile_include(self, file, addr):
+    def compile_include(self, file, addr, include_depth=1):
         link_base = {
             "promise": Promise[int](f"LA{self.next_internal_symbol_prefix}"),
             "set_where": None
         }
 
-        code = self.compile_file(file, link_base["promise"], link_base)
+        code = self.compile_file(file, link_base["promise"], link_base, include_depth)
 
         if not link_base["promise"].settled:
             link_base["promise"].settle(addr)
